@@ -16,7 +16,14 @@ Record obs := mkObs {
   o_default : string;                              (* NetworkTables .../default *)
   o_events  : list (nat * (string * string) * Z);  (* callback log: 0 on_enable | 1 on_iteration | 2
                                                       on_disable, (file, class), t in microseconds *)
-  o_attrerr : bool                                 (* a periodic() call raised AttributeError *)
+  o_attrerr : bool;                                (* a periodic() call raised AttributeError *)
+  o_failing : list ctor_call                       (* the classes of the layout whose call fails (by whatever
+                                                      mechanism) -- from the layout.  Whether, and how, the ATTEMPT
+                                                      to call such a class shows in the constructor log is not
+                                                      compared: it may fail inside the interpreter before any code
+                                                      of the class runs (a plain abc class with an abstract method
+                                                      left, an __init__ that wants arguments), and the property
+                                                      only fixes the policy, not how the selector finds out *)
 }.
 
 Definition err_code (e : error) : nat :=
@@ -36,6 +43,20 @@ Fixpoint list_eqb {A} (eqb : A -> A -> bool) (a b : list A) : bool :=
   | [], [] => true
   | x :: a', y :: b' => eqb x y && list_eqb eqb a' b'
   | _, _ => false
+  end.
+
+(* the constructor calls that returned an instance *)
+Definition successful_calls (o : obs) (l : list ctor_call) : list ctor_call :=
+  filter (fun c => negb (existsb (call_eqb c) (o_failing o))) l.
+
+(* ... and the attempts on classes that cannot be constructed: at most one each *)
+Definition failed_calls (o : obs) (l : list ctor_call) : list ctor_call :=
+  filter (fun c => existsb (call_eqb c) (o_failing o)) l.
+
+Fixpoint calls_distinct (l : list ctor_call) : bool :=
+  match l with
+  | [] => true
+  | c :: r => negb (existsb (call_eqb c) r) && calls_distinct r
   end.
 
 Definition id_of (i : inst) : string * string := (ifile i, cname (icls i)).
@@ -76,7 +97,8 @@ Definition check_case (fms : bool) (pkgname : string) (imp : pkg_import) (ops : 
     else (if Nat.eqb (o_err o) (err_code e) then 0 else 1)
   | Built r =>
     if negb (Nat.eqb (o_err o) 0) then 1
-    else if negb (list_eqb call_eqb (ctor_calls r) (o_ctors o)) then 2
+    else if negb (list_eqb call_eqb (successful_calls o (ctor_calls r)) (successful_calls o (o_ctors o))
+                 && calls_distinct (failed_calls o (o_ctors o))) then 2
     else if negb (list_eqb mode_entry_eqb
                    (map (fun kv => (fst kv, id_of (snd kv))) (sort_items (modes r))) (o_modes o)) then 3
     else if negb (list_eqb String.eqb (sort_strings (option_names r)) (o_options o)) then 4
@@ -88,16 +110,29 @@ Definition check_case (fms : bool) (pkgname : string) (imp : pkg_import) (ops : 
       else 0
   end.
 
-Definition case := (bool * string * pkg_import * list op * obs)%type.
+(* The import is given as a list of alternatives.  For an implicit package the
+   directories of its __path__ are scanned in the iteration order of a Python
+   set, which is not specified: the harness lists the __path__ (repetitions
+   included) once for every order of its distinct directories, and the
+   observation has to agree with the model for one of them.  Every other import
+   outcome has one alternative.  The clause reported is that of the first. *)
+Definition check_case_any (fms : bool) (pkgname : string) (imps : list pkg_import) (ops : list op) (o : obs) : nat :=
+  if existsb (fun imp => Nat.eqb (check_case fms pkgname imp ops o) 0) imps then 0
+  else match imps with
+       | [] => 9
+       | imp :: _ => check_case fms pkgname imp ops o
+       end.
+
+Definition case := (bool * string * list pkg_import * list op * obs)%type.
 
 Fixpoint bad_from (i : nat) (l : list case) : list nat :=
   match l with
   | [] => []
   | (fms, n, p, ops, o) :: r =>
-    if Nat.eqb (check_case fms n p ops o) 0 then bad_from (S i) r else i :: bad_from (S i) r
+    if Nat.eqb (check_case_any fms n p ops o) 0 then bad_from (S i) r else i :: bad_from (S i) r
   end.
 
 (* indices of disagreeing cases, and for those the differing clause *)
 Definition bad_indices (l : list case) : list nat := bad_from 0 l.
 Definition bad_clauses (l : list case) : list nat :=
-  filter (fun c => negb (Nat.eqb c 0)) (map (fun '(fms, n, p, ops, o) => check_case fms n p ops o) l).
+  filter (fun c => negb (Nat.eqb c 0)) (map (fun '(fms, n, p, ops, o) => check_case_any fms n p ops o) l).
